@@ -120,6 +120,7 @@ def run(prog: Program, rep: Report, tier: str):
     rule_nan(prog, rep, "C18.nan")
     rule_logspace(prog, rep)
     rule_overflow(prog, rep)
+    rule_norm_at_zero(prog, rep)
     if tier == "thorough":
         from ..audit import audit_generic
         audit_generic(prog, rep, "C18")
@@ -183,6 +184,40 @@ def rule_overflow(prog, rep):
                          f"the input; for large |input| the value is 0 but its gradient is inf/inf = NaN")
         else:
             rep.holds("C18.overflow", site, k, "no such division", nontrivial=False)
+
+
+def rule_norm_at_zero(prog, rep):
+    """The Euclidean norm is sqrt(sum x^2): its derivative at the zero vector is 0 * inf = NaN.  A density or a
+    bijection that takes the norm (or an unguarded square root) of a quantity that is the input itself - and so is
+    exactly zero at an ordinary point such as the mode of a standard normal - has a finite value and a NaN gradient
+    there.  Squared norms are to be written sum(x**2)."""
+    rep.rule("C18.norm", "no jnp.linalg.norm / sqrt applied directly to (an affine function of) the method input outside a "
+                         "sanitising where: the gradient at the zero vector is NaN while the value is finite", minimum=60)
+    NORMS = {"jax.numpy.linalg.norm", "jax.numpy.sqrt", "jax.lax.sqrt"}
+    for c, m, t in methods_to_check(prog):
+        site = method_site(prog, c, m) if m != "_log_prob" or "_log_prob" in c.methods else "-"
+        k = f"{c.qualname}.{m}:no-norm-of-the-input"
+        if has_unknown(t):
+            continue
+        bad = None
+        guarded = set()
+        for s2 in walk(t):
+            if s2[0] == "call" and s2[1] == ("ext", "jax.numpy.where"):
+                for z in walk(s2):
+                    guarded.add(key(z))
+        for s2 in walk(t):
+            if s2[0] == "call" and s2[1][0] == "ext" and s2[1][1] in NORMS and key(s2) not in guarded:
+                arg = dict(s2[3]).get("x") or dict(s2[3]).get("a") or (s2[2][0] if s2[2] else None)
+                if arg is not None and (arg == X or (arg[0] in ("add", "mul") and any(z == X for z in arg[1]) and all(
+                        z == X or not any(w == X for w in walk(z)) for z in arg[1]))):
+                    bad = s2
+                    break
+        if bad is not None:
+            rep.violated("C18.norm", site, k,
+                         f"{show(bad, 120)}: the norm / square root of the input itself has a NaN gradient where the input is "
+                         f"exactly zero (sqrt'(0) = inf times the inner derivative 0), although the value is finite")
+        else:
+            rep.holds("C18.norm", site, k, "no norm / sqrt of the raw input", nontrivial=False)
 
 
 def rule_where(prog, rep):
